@@ -48,6 +48,7 @@ type frame struct {
 	panic            any
 	phitemps         []value
 	curInstr         ssa.Instruction
+	phisDone         bool
 }
 
 func (e *Engine) infoFor(fn *ssa.Function) *fnInfo {
@@ -146,12 +147,18 @@ func (e *Engine) constValue0(c *ssa.Const) value {
 // ---- panics ---------------------------------------------------------------
 
 func (e *Engine) goPanic(msg string) {
+	if e.specDepth > 0 {
+		panic(specAbort{"trap: " + msg})
+	}
 	// runtime.Error-like panic: iface of runtime.errorString
 	v := iface{t: e.runtimeErrorString, v: e.mkstr(strings.TrimPrefix(msg, "runtime error: "))}
 	panic(targetPanic{v: v, site: e.where()})
 }
 
 func (e *Engine) unsupported(why string) {
+	if e.specDepth > 0 {
+		panic(specAbort{"unsupported: " + why})
+	}
 	panic(pathEnd{kind: "unsupported", reason: why + " at " + e.where()})
 }
 
@@ -263,6 +270,9 @@ func (e *Engine) call(caller *frame, pos token.Pos, fn value, args []value) valu
 func (e *Engine) callSSA(caller *frame, pos token.Pos, fn *ssa.Function, args []value, env []value) value {
 	rs := e.resolve(fn)
 	if rs.intr != nil {
+		if e.specDepth > 0 && !pureIntrinsic(fn.String()) {
+			panic(specAbort{"impure intrinsic"})
+		}
 		fr := &frame{e: e, caller: caller, fn: fn}
 		if e.stats != nil && e.inInit == 0 {
 			e.stats.Models[fn.String()] = true
@@ -358,6 +368,10 @@ func (e *Engine) executePhis(fr *frame) []ssa.Instruction {
 		}
 	}
 	nonPhis := fr.block.Instrs[firstNonPhi:]
+	if fr.phisDone {
+		fr.phisDone = false
+		return nonPhis
+	}
 	if firstNonPhi > 0 {
 		phis := fr.block.Instrs[:firstNonPhi]
 		predIndex := -1
@@ -407,6 +421,12 @@ func (e *Engine) concInt(v value, what string) int64 {
 }
 
 func (e *Engine) visitInstr(fr *frame, instr ssa.Instruction) continuation {
+	if e.specDepth > 0 {
+		switch instr.(type) {
+		case *ssa.Store, *ssa.MapUpdate, *ssa.Defer, *ssa.RunDefers, *ssa.Panic, *ssa.Go, *ssa.Send, *ssa.Select:
+			panic(specAbort{"side effect"})
+		}
+	}
 	switch instr := instr.(type) {
 	case *ssa.DebugRef:
 	case *ssa.UnOp:
@@ -480,6 +500,13 @@ func (e *Engine) visitInstr(fr *frame, instr ssa.Instruction) continuation {
 		ct, ok := c.(*Term)
 		if !ok {
 			e.unsupported(fmt.Sprintf("branch on %T", c))
+		}
+		if !ct.IsConst() {
+			if known, v := e.know.decide(ct); known {
+				ct = e.ts.Bool(v)
+			} else if e.tryIfConvert(fr, instr, ct) {
+				return kJump
+			}
 		}
 		if e.branch(ct, "if") {
 			succ = 0
@@ -729,6 +756,11 @@ func (e *Engine) implements(t types.Type, it *types.Interface) bool {
 	r := types.Implements(t, it)
 	e.implCache[k] = r
 	return r
+}
+
+func pureIntrinsic(name string) bool {
+	return strings.HasPrefix(name, "internal/bytealg.") || strings.HasPrefix(name, "strings.") ||
+		strings.HasPrefix(name, "bytes.") || strings.HasPrefix(name, "unicode/utf8.") || name == "internal/abi.NoEscape"
 }
 
 type resolved struct {
